@@ -163,7 +163,9 @@ class Frame:
         self.site_fn = func.qualname if func is not None else "<module>"
 
 
-MISSING = object()
+from .values import _Sentinel
+
+MISSING = _Sentinel('MISSING')
 
 OBJECT_ATTRS = (
     "__class__ __delattr__ __dir__ __doc__ __eq__ __format__ __ge__ __getattribute__ __getstate__ __gt__ "
@@ -185,6 +187,7 @@ class Interp:
         self.trace = []
         self.path = []  # (atom, bool, site)
         self.decided = {}
+        self.lazy_cache = {}
         self.exc_stack = []
         self.depth = 0
         self.frames = []
@@ -195,7 +198,9 @@ class Interp:
         self.record_ctor = set()  # qualified class names whose constructor is recorded, not interpreted
         self.truncated = []
         self.models = models
-        self.builtins = models.make_builtins(self)
+        if getattr(program, '_builtins', None) is None:
+            program._builtins = models.make_builtins(self)
+        self.builtins = program._builtins
         self.steps = 0
         self.max_steps = 400000
 
@@ -807,6 +812,11 @@ class Interp:
     def force(self, v, node=None):
         if type(v) is LazyV:
             if v.cell[0] is UNRESOLVED:
+                if not v.persist:
+                    # re-chosen in every run, but stable within one run
+                    if v.name not in self.lazy_cache:
+                        self.lazy_cache[v.name] = v.options[self.choose(len(v.options), ("lazy", v.name))]
+                    return self.lazy_cache[v.name]
                 if self.hooks is not None and hasattr(self.hooks, "resolve_lazy"):
                     v.cell[0] = self.hooks.resolve_lazy(self, v, node)
                 else:
@@ -1253,10 +1263,10 @@ class Interp:
                 else:
                     args.append(("*", v))
             else:
-                args.append(self.eval(a, fr))
+                args.append(self.force(self.eval(a, fr), a))
         kwargs = {}
         for k in e.keywords:
-            v = self.eval(k.value, fr)
+            v = self.force(self.eval(k.value, fr), k.value)
             if k.arg is None:
                 if isinstance(v, DictV):
                     for kk, vv in v.items.items():
